@@ -184,7 +184,19 @@ def call_package(self, fi, pos, kw, self_term, self_cls, node, fr, star=None, ds
     recursive = any(f.fi is fi for f in self.frames)
     if depth > self.max_depth or recursive or fi.short in self.no_inline or star is not None or dstar is not None:
         args = ([self_term] if (is_method and self_term is not None) else []) + pos
-        return T.mk_call(fi.short, args, kw)
+        if star is None and dstar is None and not fi.node.args.vararg and not fi.node.args.kwarg:
+            # canonical opaque application: every formal (defaults included) in declaration order
+            formals = fi.all_params()[1 if is_method else 0:]
+            if all(p in bound for p in formals):
+                args = ([self_term] if (is_method and self_term is not None) else []) + [bound[p] for p in formals]
+                res = T.mk_call(fi.short, args, [])
+                if ev is not None:
+                    ev.data['ret'] = res
+                return res
+        res = T.mk_call(fi.short, args, kw)
+        if ev is not None:
+            ev.data['ret'] = res
+        return res
     env = dict(bound)
     params = fi.all_params()
     if is_method and params:
@@ -209,6 +221,10 @@ def call_package(self, fi, pos, kw, self_term, self_cls, node, fr, star=None, ds
     ret, live = self._run_frame(f2)
     if ev is not None:
         ev.data['ret'] = ret
+    # exception propagation: the caller continues only on the paths on which the callee returns
+    okc = T.mk_or([c for c, _ in f2.returns] + [live])
+    if okc.key != TRUE.key:
+        self.pending.append(okc)
     return ret
 
 
@@ -277,6 +293,9 @@ def method_call(self, recv, name, pos, kw, node, fr, star=None, dstar=None):
     self.emit('call', node, fr, name='.' + name, resolved=None, args=[recv] + pos, kwargs=kw, external=True,
               method=True, recv=recv, recv_node=node.func.value, candidates=[c.short for c in cands],
               mutating=name in MUTATING_METHODS)
+    if name == 'append' and ra is not None and ra.kind == 'list' and len(pos) == 1 and self.class_of(recv) is None:
+        self._rebind(node.func.value, T.mk_tuple(list(ra.args) + [pos[0]], 'list'), fr)
+        return NONE
     if name in MUTATING_METHODS and self.class_of(recv) is None:
         # model list growth / dict update on the container expression
         newv = T.mk_call('mut.' + name, [recv] + pos, kw)
@@ -324,6 +343,9 @@ def numpy_call(self, name, pos, kw):
     if name == 'vectorize' and len(pos) == 1:
         return pos[0]           # elementwise application of the same function
     sig = NPSIG.get(name)
+    if sig is not None and not pos and any(k == sig[0] for k, _ in kw):
+        pos = [v for k, v in kw if k == sig[0]][:1]
+        kw = [(k, v) for k, v in kw if k != sig[0]]
     if sig is not None and len(pos) > 1:
         extra = pos[1:]
         pos = pos[:1]
